@@ -22,7 +22,12 @@ func (s *StreamSelectPlanner) Process(ctx *shared.PlannerContext) (sql.ISelect, 
 		matcher := parser.LabelMatcher{Node: _matcher}
 		labelNames = append(labelNames, matcher.GetLabel())
 		ops = append(ops, matcher.GetOp())
-		values = append(values, matcher.GetVal())
+		val := matcher.GetVal()
+		if _matcher.Type == labels.MatchRegexp || _matcher.Type == labels.MatchNotRegexp {
+			// Prometheus regex matchers are fully anchored; ClickHouse match() is a search
+			val = "^(?:" + val + ")$"
+		}
+		values = append(values, val)
 	}
 	plannerStreamSelect := logql_transpiler.NewStreamSelectPlanner(labelNames, ops, values)
 	return plannerStreamSelect.Process(ctx)
